@@ -93,6 +93,7 @@ def run(res, tier, seed, driver_ok):
     import basic_robotics.general.faser_high_performance as fhp
     import sph
     stats = {'kernels': 0, 'kernel_layout_pairs': 0, 'rejected_layouts': 0, 'shape_table_checks': 0, 'boundscheck_calls': 0, 'layouts': {}}
+    accepted_pairs, rejected_pairs = set(), {}
 
     def bad(key, what, inp, obs):
         if len(res.violations) < 40:
@@ -188,11 +189,18 @@ def run(res, tier, seed, driver_ok):
                 except Exception as e:
                     if 'Typing' in type(e).__name__ or 'TypeError' in type(e).__name__ or 'No matching definition' in str(e):
                         stats['rejected_layouts'] += 1
+                        rejected_pairs.setdefault((name, lay), (inp, repr(e)[:300]))
                         continue
                     bad('compiled-raises:%s:%s:%s' % (name, lay, type(e).__name__), 'the compiled kernel raised where the interpreted source returns', inp, repr(e)[:200]); continue
                 stats['kernel_layout_pairs'] += 1
+                accepted_pairs.add((name, lay))
                 res.distinct.add((name, lay))
                 fg, fw = np.array(flat(got)), np.array(flat(want))
+                if name in ('IKinSpace', 'IKinBody', 'IKinSpaceConstrained') and fg.shape == fw.shape and fg.size and fg[-1] == 0.0 and fw[-1] == 0.0:
+                    # both runs used up the iteration budget without converging: a non-convergent Newton iteration amplifies the rounding
+                    # difference between the two executions without bound — only the verdict is comparable
+                    stats['ik_not_converged_verdict_only'] = stats.get('ik_not_converged_verdict_only', 0) + 1
+                    continue
                 if fg.shape != fw.shape or not np.allclose(fg, fw, rtol=1e-9, atol=1e-9, equal_nan=True):
                     bad('compiled-differs:%s:%s' % (name, lay), 'compiled and interpreted execution of the same source return different values', inp,
                         {'compiled': fg.tolist()[:12], 'interpreted': fw.tolist()[:12]})
@@ -202,6 +210,18 @@ def run(res, tier, seed, driver_ok):
                     stats['shape_table_checks'] += 1
                     if not unify(got.shape, r, dict(binding)):
                         res.mismatches.append({'what': 'documented return shape differs from the shape returned', 'kernel': name, 'shape': list(got.shape), 'documented': list(r)})
+    # a (kernel, layout) pair the compiled kernel accepted on the reference tree (harness/c17_layouts.json, written once from the unchanged
+    # tree over several seeds) and now rejects with a typing error, while the interpreted source still returns: compiled != interpreted
+    lay_file = os.path.join(os.path.dirname(os.path.abspath(__file__)), 'c17_layouts.json')
+    if os.environ.get('C17_WRITE_LAYOUTS') == '1':
+        old_ = set(map(tuple, json.load(open(lay_file))['accepted'])) if os.path.exists(lay_file) else set()
+        json.dump({'accepted': sorted(map(list, old_ | accepted_pairs))}, open(lay_file, 'w'), indent=0)
+    elif os.path.exists(lay_file):
+        base_ = set(map(tuple, json.load(open(lay_file))['accepted']))
+        for pair in sorted(base_ & set(rejected_pairs) - accepted_pairs):
+            inp_, err_ = rejected_pairs[pair]
+            bad('layout-no-longer-accepted:%s:%s' % pair, 'the compiled kernel rejects an argument layout it accepts on the reference tree, while the interpreted source returns', inp_, err_)
+        stats['accepted_layout_pairs_on_reference_tree'] = len(base_)
     # bounds-checked run of the public surface against the plain run (sub-processes: the flag is read at import)
     worker = os.path.join(os.path.dirname(os.path.abspath(__file__)), 'c17_worker.py')
     wreps = 9 if thorough else 3
